@@ -27,12 +27,12 @@ import (
 func init() { families["conc"] = runConc }
 
 type ccScenario struct {
-	ID      int             `json:"id"`
-	Sources []ccSource      `json:"sources"`
-	Waves   int             `json:"waves"`
-	Widths  []int           `json:"widths"` // goroutines per wave
-	Procs   []int           `json:"procs"`  // GOMAXPROCS per wave
-	Seed    int64           `json:"seed"`
+	ID      int        `json:"id"`
+	Sources []ccSource `json:"sources"`
+	Waves   int        `json:"waves"`
+	Widths  []int      `json:"widths"` // goroutines per wave
+	Procs   []int      `json:"procs"`  // GOMAXPROCS per wave
+	Seed    int64      `json:"seed"`
 	// Cold: the concurrent waves come first (widest first), in a process that has compiled nothing yet; the
 	// sequential pass follows.  Lazily filled caches shared between parsers are only written on first use.
 	Cold bool `json:"cold"`
@@ -121,7 +121,7 @@ func runConc(in, out string, _ []string) error {
 			}
 			old := runtime.GOMAXPROCS(sc.Procs[(wv-1)%len(sc.Procs)])
 			type res struct {
-				src          int
+				src         int
 				td, jd, pan string
 			}
 			results := make([]res, width)
